@@ -313,7 +313,7 @@ static void tuple_case(void)
         }
         free(in);                                                  /* the URL must own all its text */
         VH_CHECK(!SPIF_URL_ISNULL(u), "parse:refused", "constructor returned NULL for %s", vh_qs(text));
-        VH_CHECK(SPIF_OBJ_IS_URL(u), "parse:class", "constructor returned an object of class %s", vh_qs((const char *) SPIF_OBJ_CLASSNAME(u)));
+        VH_CHECK(SPIF_OBJ_IS_URL(u), "parse:class", "constructor returned an object of class %s", vh_qs((const char *) SPIF_OBJ_CLASS(u)->classname));
         VH_CHECK(SPIF_STR_STR(SPIF_STR(u)) && !strcmp((char *) SPIF_STR_STR(SPIF_STR(u)), text), "parse:text",
                  "full text after parse is %s, input was %s", vh_qs((char *) SPIF_STR_STR(SPIF_STR(u))), vh_qs(text));
         check_all_objs(u, "parse");
@@ -339,7 +339,7 @@ static void tuple_case(void)
         VH_CHECK(ok, "unparse:refused", "unparse returned FALSE for %s", vh_qs(text));
         vh_evals(1);
         VH_CHECK(SPIF_OBJ_IS_URL(u), "unparse:class", "after unparse of %s the object is no longer a url object (class %s)", vh_qs(text),
-                 vh_qs((const char *) SPIF_OBJ_CLASSNAME(u)));
+                 vh_qs((const char *) SPIF_OBJ_CLASS(u)->classname));
         check_all_objs(u, "unparse");
         const char *got = (const char *) SPIF_STR_STR(SPIF_STR(u));
         VH_CHECK(got != NULL, "unparse:text", "no text after unparse of %s", vh_qs(text));
@@ -461,7 +461,7 @@ static void random_case(void)
     vh_op("unparse-bytes");
     spif_url_unparse(u);
     VH_CHECK(SPIF_OBJ_IS_URL(u), "unparse:class", "after unparse of %s the object is no longer a url object (class %s)", vh_q(s, n),
-             vh_qs((const char *) SPIF_OBJ_CLASSNAME(u)));
+             vh_qs((const char *) SPIF_OBJ_CLASS(u)->classname));
     check_all_objs(u, "bytes-unparse");
     if (SPIF_STR_STR(SPIF_STR(u))) {
         char *t2 = strdup((char *) SPIF_STR_STR(SPIF_STR(u)));
